@@ -34,7 +34,9 @@ structure Inv (k : Kind) (inp : Input) (s : FState) : Prop where
   wf : inp.nullity ≤ inp.n
   cfg : inp.nullity = 0 ∨ inp.resolves (eff inp s) = true
   sub : s.useAll = false → s.list.isSome = true
-  all : k = .chol → s.useAll = true → s.list = none ∨ s.list = some (allList inp.n)
+  /-- chol, `minx_t == ALL`: the stored list is absent or the list 1..n' that `solve()` built for SOME
+      system size n' (possibly of an earlier input: `solve()` rebuilds it iff `minx_n != N`) -/
+  all : k = .chol → s.useAll = true → s.list = none ∨ ∃ n', s.list = some (allList n')
   solved : s.solved = true → s.dec = true ∧ s.gprov = vexp inp (eff inp s)
             ∧ (0 < inp.nullity → s.list = some (eff inp s))
 
@@ -78,10 +80,12 @@ theorem materialise_spec {k : Kind} {inp : Input} {s : FState} (h : Inv k inp s)
     cases k with
     | gso => simp [materialise, eff, hu]
     | chol =>
-      rcases h.all rfl hu with hl | hl
+      rcases h.all rfl hu with hl | ⟨n', hl⟩
       · have : ¬ (0 = inp.n) := by omega
         simp [materialise, eff, hu, hl, this]
-      · simp [materialise, eff, hu, hl, allList_length]
+      · by_cases hn' : n' = inp.n
+        · simp [materialise, eff, hu, hl, allList_length, hn']
+        · simp [materialise, eff, hu, hl, allList_length, hn']
 
 theorem eff_materialise {k : Kind} {inp : Input} {s : FState} (h : Inv k inp s) (hn : 0 < inp.nullity) :
     eff inp (materialise k inp s) = eff inp s := by
@@ -134,6 +138,7 @@ theorem solve_spec {k : Kind} {inp : Input} {s : FState} (h : Inv k inp s) :
         have hu' : ua = true := by
           have := hm.2.1; simp at hu; rw [this] at hu; exact hu
         right
+        refine ⟨inp.n, ?_⟩
         show M.list = _
         rw [hm.1, ← hE]; simp [eff, hu']
       · intro _
@@ -153,7 +158,7 @@ theorem inv_config {k : Kind} {inp : Input} {s : FState} (h : Inv k inp s)
     (ua : Bool) (l : Option (List Nat))
     (hcfg : inp.nullity = 0 ∨ inp.resolves (if ua then allList inp.n else l.getD []) = true)
     (hsub : ua = false → l.isSome = true)
-    (hall : k = .chol → ua = true → l = none ∨ l = some (allList inp.n)) :
+    (hall : k = .chol → ua = true → l = none ∨ ∃ n', l = some (allList n')) :
     Inv k inp { s with list := l, useAll := ua, solved := false } :=
   ⟨h.wf, by simpa [eff] using hcfg, hsub, hall, fun hh => absurd hh (by simp)⟩
 
